@@ -246,9 +246,9 @@ def rankedToCondorcet (atBottom : Bool) (p : RProfile) : Dict (Cand × Cand) :=
 
 /-! ## score votes -/
 
-/-- the candidates scored on any ballot (convert.py L458-460), first-occurrence order -/
+/-- the candidates scored on any ballot (convert.py L458-460): a frozenset -/
 def allScoredCandidates (p : SProfile) : List Cand :=
-  (p.flatMap (fun bw => bw.1.map (·.1))).foldl (fun out c => if c ∈ out then out else out ++ [c]) []
+  canonSet (p.flatMap (fun bw => bw.1.map (·.1)))
 
 /-- `itertools.groupby(sorted_iter, key=score)`: maximal runs of equal scores -/
 def groupRuns : ScoreBallot → List (Rat × List Cand)
@@ -413,6 +413,37 @@ def roundHalfUp (decimals : Nat) (x : Rat) : Rat :=
   let r : Int := if 0 ≤ s then (s + 1/2).floor else -((-s + 1/2).floor)
   (r : Rat) / scale
 
+/-- the rounding modes of Python's `decimal` module -/
+inductive RoundMode where
+  | halfUp | halfDown | halfEven | down | up | ceiling | floor | r05up
+deriving DecidableEq, Repr
+
+/-- `Decimal.quantize(10^-decimals, mode)` on the scaled value `s = x * 10^decimals`: the integer it rounds to -/
+def roundInt (mode : RoundMode) (s : Rat) : Int :=
+  let fl : Int := s.floor
+  let ce : Int := s.ceil
+  let trunc : Int := if 0 ≤ s then fl else ce          -- toward zero
+  let away : Int := if 0 ≤ s then ce else fl           -- away from zero
+  let d : Rat := s - (fl : Rat)                        -- fractional part in [0, 1)
+  match mode with
+  | .halfUp => if 0 ≤ s then (s + 1/2).floor else -((-s + 1/2).floor)
+  | .halfDown => if d < 1/2 then fl else if (1:Rat)/2 < d then ce else trunc
+  | .halfEven => if d < 1/2 then fl else if (1:Rat)/2 < d then ce else (if fl % 2 = 0 then fl else ce)
+  | .down => trunc
+  | .up => away
+  | .ceiling => ce
+  | .floor => fl
+  | .r05up => if trunc % 5 = 0 then away else trunc
+
+/-- rounding of one count with an arbitrary mode -/
+def roundWith (mode : RoundMode) (decimals : Nat) (x : Rat) : Rat :=
+  let scale : Rat := ((10 ^ decimals : Nat) : Rat)
+  (roundInt mode (x * scale) : Rat) / scale
+
+/-- `RoundedVotes(decimals, round_method).convert` (convert.py L889-900) -/
+def roundedVotesWith {κ : Type} [DecidableEq κ] (mode : RoundMode) (decimals : Nat) (p : Dict κ) : Dict κ :=
+  dictOf (p.map (fun kv => (kv.1, roundWith mode decimals kv.2)))
+
 /-- `RoundedVotes(decimals).convert` (convert.py L889-900) with the default rounding method -/
 def roundedVotes {κ : Type} [DecidableEq κ] (decimals : Nat) (p : Dict κ) : Dict κ :=
   dictOf (p.map (fun kv => (kv.1, roundHalfUp decimals kv.2)))
@@ -454,6 +485,7 @@ inductive Conv where
   | subsetted (kind : Nat) (subset : List Cand)     -- 0 simple, 1 approval, 2 ranked, 3 score
   | subsettedNested (subset : List Cand)
   | rounded (decimals : Nat)
+  | roundedWith (mode : RoundMode) (decimals : Nat)
   | chain (cs : List Conv)
 
 def affOf (aff : List (Cand × Nat)) (c : Cand) : Option Nat :=
@@ -500,6 +532,9 @@ def applyConv : Conv → Val → Except Err Val
   | .rounded k, .simple d => .ok (.simple (roundedVotes k d))
   | .rounded k, .approval d => .ok (.approval (roundedVotes k d))
   | .rounded k, .ranked d => .ok (.ranked (roundedVotes k d))
+  | .roundedWith m k, .simple d => .ok (.simple (roundedVotesWith m k d))
+  | .roundedWith m k, .approval d => .ok (.approval (roundedVotesWith m k d))
+  | .roundedWith m k, .ranked d => .ok (.ranked (roundedVotesWith m k d))
   | .chain cs, v => applyChain cs v
   | _, _ => typeMismatch
 /-- `Chain(converters).convert(votes)` (convert.py L973-977) -/
